@@ -1,3 +1,6 @@
 import ChessVerif.Props.C08
 #print axioms ChessVerif.Props.C08.nodes_le_budget
 #print axioms ChessVerif.Props.C08.time_irrelevant
+#print axioms ChessVerif.Props.C08.soft_eq_hard_strong
+#print axioms ChessVerif.Props.C08.soft_eq_hard
+#print axioms ChessVerif.Props.C08.soft_eq_hard_lines
